@@ -16,20 +16,33 @@ IMPORTS = ['Base.Util', 'Base.QMat', 'Model.Operators']
 TOL = 1e-9
 
 PRELUDE = r'''
-Definition rr (r : res (list Q)) : list (list Q) := match r with Ok y => [map Qred y] | Err => [] end.
-Definition rm (m : list (list Q)) : list (list Q) := map (map Qred) m.
-Definition sums (o : op_expr) : list (list Q) :=
+Definition qz (q : Q) : Z * Z := let r := Qred q in (Qnum r, Zpos (Qden r)).
+Definition rv (v : list Q) : list (Z * Z) := map qz v.
+Definition rr (r : res (list Q)) : list (list (Z * Z)) := match r with Ok y => [rv y] | Err => [] end.
+Definition rm (m : list (list Q)) : list (list (Z * Z)) := map rv m.
+Definition sums (o : op_expr) : list (list (Z * Z)) :=
   match o with
-  | OSlr e => let v := slr_eval e in [map Qred (slr_sum0 v); map Qred (slr_sum1 v); [Qred (slr_sum v)]]
+  | OSlr e => let v := slr_eval e in [rv (slr_sum0 v); rv (slr_sum1 v); [qz (slr_sum v)]]
   | _ => []
   end.
 Definition opcase (sq : Q -> Q) (o : op_expr) (x : list Q) (X : list (list Q)) (with_dense : bool) :=
   (rr (op_apply sq o x), rm (op_apply_mat sq 2 o X), (if with_dense then rm (op_dense sq o) else [], sums o)).
-Definition smat_out (s : smat) : nat * list (list (nat * Q)) := (s_ncol s, map (map (fun e => (fst e, Qred (snd e)))) (s_rows s)).
-Definition rsm (r : res smat) : list (nat * list (list (nat * Q))) := match r with Ok s => [smat_out s] | Err => [] end.
+Definition smat_out (s : smat) : nat * list (list (nat * (Z * Z))) := (s_ncol s, map (map (fun e => (fst e, qz (snd e)))) (s_rows s)).
+Definition rsm (r : res smat) : list (nat * list (list (nat * (Z * Z)))) := match r with Ok s => [smat_out s] | Err => [] end.
 Definition rz (r : res (list Z)) : list (list Z) := match r with Ok l => [l] | Err => [] end.
 Definition rn (r : res (list nat)) : list (list nat) := match r with Ok l => [l] | Err => [] end.
 '''
+
+
+def unq(v):
+    """(num, den) pairs printed by the prelude's qz -> Fraction, recursively"""
+    if isinstance(v, tuple):
+        if len(v) == 2 and isinstance(v[0], int) and isinstance(v[1], int) and not isinstance(v[0], bool):
+            return Fraction(v[0], v[1])
+        return tuple(unq(x) for x in v)
+    if isinstance(v, list):
+        return [unq(x) for x in v]
+    return v
 
 
 # ------------------------------------------------------------------------------------------------
@@ -255,8 +268,7 @@ def gen_op(rng, depth, dmax, defects):
         if rng.random() < 0.25:
             e.append('dense')
         if defects and rng.random() < 0.35:
-            e = ['NT', e]
-            return {'cls': 'nz', 'e': e}, (r, c)      # .T returns self: shape stays (r, c)
+            return {'cls': 'nz', 'e': ['NT', e]}, (c, r)      # the matrix denoted is c x r (the code returns self)
         return {'cls': 'nz', 'e': e}, (r, c)
     if cls == 'lp':
         n = rng.randint(1, dmax)
@@ -380,7 +392,7 @@ def run_operators(ctx, impl, rng, quick, dmax, depth_max, notes):
         op_c = {'cls': cs['op']['cls'], 'e': strip_fmt(cs['op']['e'])}
         cs['op_c'] = op_c
         exprs.append('opcase %s %s %s %s %s' % (csqrt(sqrt_table(op_c)), cop(op_c), cvec(cs['x']), cmat(cs['X']), cbool(cs['with_dense'])))
-    model = coq_eval('c15op', IMPORTS, exprs, prelude=PRELUDE, shard=60 if quick else 100, timeout=900)
+    model = unq(coq_eval('c15op', IMPORTS, exprs, prelude=PRELUDE, shard=60 if quick else 100, timeout=900))
     for idx, (cs, mv) in enumerate(zip(cases, model)):
         op = cs['op']
         m_dot, m_mat, (m_dense, m_sums) = mv
@@ -421,7 +433,7 @@ def run_operators(ctx, impl, rng, quick, dmax, depth_max, notes):
         elif 'err' in d or not vclose(fl(m_dot[0]), d['ok']):
             ctx.violation('model_vs_impl', 'operator.dot(x): implementation differs from the model', case=case,
                           expected=fl(m_dot[0]), observed=d, cls=op['cls'], part='dot')
-        stale = op['cls'] == 'cn' and site is not None
+        stale = site is not None     # shapes / values are off at a defective site: only the 1-D product is compared
         if not stale:
             for part in ('mv2', 'dotm'):
                 o = out[part]
@@ -491,7 +503,7 @@ def run_utils(ctx, impl, rng, quick, dmax):
     nU = 70 if quick else 500
 
     def coq(tag, exprs):
-        return coq_eval('c15' + tag, IMPORTS, exprs, prelude=PRELUDE, shard=100, timeout=900) if exprs else []
+        return unq(coq_eval('c15' + tag, IMPORTS, exprs, prelude=PRELUDE, shard=100, timeout=900)) if exprs else []
 
     def check(site, what, ok, case, expected, observed, **kw):
         if not ok:
@@ -509,9 +521,9 @@ def run_utils(ctx, impl, rng, quick, dmax):
         if p == 2:
             vals = sorted({sum(v * v for v in row) for row in d})
             tab = [(v, Fraction(math.sqrt(float(v)))) for v in vals]
-            ex.append('(rm (dense (snormalize2 %s %s)), [map Qred (snorms2 %s %s)])' % (csqrt(tab), csm(m), csqrt(tab), csm(m)))
+            ex.append('(rm (dense (snormalize2 %s %s)), [rv (snorms2 %s %s)])' % (csqrt(tab), csm(m), csqrt(tab), csm(m)))
         else:
-            ex.append('(rm (dense (snormalize %s)), [map Qred (snorms1 %s)])' % (csm(m), csm(m)))
+            ex.append('(rm (dense (snormalize %s)), [rv (snorms1 %s)])' % (csm(m), csm(m)))
         cs.append(dict(kind='normalize', m=m, p=p, fmt=fmt))
     for c_, mv in zip(cs, coq('norm', ex)):
         r = impl.call('c15', 'util', c_)
@@ -614,7 +626,7 @@ def run_utils(ctx, impl, rng, quick, dmax):
         t = rng.random() < 0.5
         n = c if t else r_
         cs.append(dict(kind='neighbors', m=m, transpose=t))
-        ex.append('(%s, get_degrees %s %s, [map Qred (get_weights %s %s)])' % (
+        ex.append('(%s, get_degrees %s %s, [rv (get_weights %s %s)])' % (
             clist(['get_neighbors %s %d %s' % (csm(m), i, cbool(t)) for i in range(n)]), csm(m), cbool(t), csm(m), cbool(t)))
     for c_, mv in zip(cs, coq('neigh', ex)):
         r = impl.call('c15', 'util', c_)
